@@ -129,6 +129,8 @@ pub struct Profile {
     pub props_pm: u64,
     /// per-mille of publishes sent through a publisher-side topic alias
     pub pub_alias_pm: u64,
+    /// (max_segment_size, max_segment_count) choices; anything but the first makes the model tolerate gaps
+    pub segments: Vec<(usize, usize)>,
 }
 
 #[derive(Clone, Debug)]
@@ -205,6 +207,7 @@ pub fn base_profile(name: &'static str) -> Profile {
         bad_id_pm: 0,
         props_pm: 120,
         pub_alias_pm: 80,
+        segments: vec![(1024 * 1024, 10)],
     }
 }
 
@@ -284,11 +287,13 @@ impl History {
         let mut rng = Rng::new(seed);
         let max_out = *rng.pick(&profile.max_outgoing);
         let strategy = rng.pick(&profile.strategies).clone();
-        let mut cfg = router_config(profile.max_connections, max_out, 1024 * 1024, 10);
+        let seg = *rng.pick(&profile.segments);
+        let mut cfg = router_config(profile.max_connections, max_out, seg.0, seg.1);
         cfg.shared_subscriptions_strategy = strategy.clone();
         let s4 = S4::new(cfg);
         let mut model = Model::new(profile.max_connections);
         model.qos0_batch = max_out as usize;
+        model.lossy = seg.0 < 1024 * 1024;
         let forced = force_triggers.is_some();
         let (triggers, triggered) = match force_triggers {
             Some(t) => (t, true),
@@ -324,7 +329,7 @@ impl History {
                 ..Default::default()
             });
         }
-        let config = json!({"max_outgoing_packet_count": max_out, "strategy": format!("{strategy:?}"), "max_connections": profile.max_connections, "clients": n});
+        let config = json!({"max_segment_size": seg.0, "max_segment_count": seg.1, "max_outgoing_packet_count": max_out, "strategy": format!("{strategy:?}"), "max_connections": profile.max_connections, "clients": n});
         History {
             seed,
             profile: profile.clone(),
@@ -1782,6 +1787,10 @@ impl History {
         stats.add_extra("router_steps", self.s4.steps);
         stats.add_extra("accepted_messages", self.model.log.len() as u64);
         stats.add_extra("pkid_reuse_before_pubcomp", self.model.pkid_reuse_before_pubcomp);
+        stats.add_extra("retention_gaps_tolerated", self.model.gaps_tolerated);
+        if self.model.lossy {
+            *stats.corners.entry("small-retention-history".to_owned()).or_default() += 1;
+        }
         if !self.corner.is_empty() {
             stats.shapes.insert(self.shape_hash());
         }
